@@ -91,6 +91,14 @@ func ruleT8(c *Ctx) {
 				return true
 			}
 			packs++
+			// a packing helper (pack(w, &record)) stands for each of its call sites
+			if efd := enclosingFunc(f, call.Pos()); efd != nil && efd.Recv == nil && efd.Name.Name != "Write" {
+				k := 0
+				forCallsOf(p, efd, func(*ast.CallExpr) { k++ })
+				if k > 1 {
+					packs += k - 1
+				}
+			}
 			le := false
 			if fn.Name() == "PackWithOptions" && len(call.Args) == 3 {
 				ast.Inspect(call.Args[2], func(m ast.Node) bool {
@@ -500,10 +508,25 @@ func entryConstructorCall(c *Ctx, p *packagesPackage, call *ast.CallExpr) (*ast.
 		return nil, nil, false
 	}
 	hd := funcDeclOf(p, fn)
-	if hd == nil || hd.Body == nil || len(hd.Body.List) != 1 || hd.Type.Params == nil {
+	if hd == nil || hd.Body == nil || len(hd.Body.List) < 1 || len(hd.Body.List) > 2 || hd.Type.Params == nil {
 		return nil, nil, false
 	}
-	ret, ok := hd.Body.List[0].(*ast.ReturnStmt)
+	// optionally: sym := CoffSymbol{…} first
+	var localSym *ast.CompositeLit
+	var localObj types.Object
+	if len(hd.Body.List) == 2 {
+		as, ok := hd.Body.List[0].(*ast.AssignStmt)
+		if !ok || as.Tok != token.DEFINE || len(as.Lhs) != 1 || len(as.Rhs) != 1 {
+			return nil, nil, false
+		}
+		cl, ok := as.Rhs[0].(*ast.CompositeLit)
+		if !ok || !isNamedLit(info, cl, "CoffSymbol") {
+			return nil, nil, false
+		}
+		localSym = cl
+		localObj = info.Defs[as.Lhs[0].(*ast.Ident)]
+	}
+	ret, ok := hd.Body.List[len(hd.Body.List)-1].(*ast.ReturnStmt)
 	if !ok || len(ret.Results) != 1 {
 		return nil, nil, false
 	}
@@ -533,6 +556,11 @@ func entryConstructorCall(c *Ctx, p *packagesPackage, call *ast.CallExpr) (*ast.
 		return e
 	}
 	main, ok := field(entry, "Main").(*ast.CompositeLit)
+	if !ok {
+		if id, isId := field(entry, "Main").(*ast.Ident); isId && localSym != nil && info.Uses[id] == localObj {
+			main, ok = localSym, true
+		}
+	}
 	if !ok {
 		return nil, nil, false
 	}
